@@ -10,8 +10,11 @@ pub mod c04;
 pub mod c05;
 pub mod c06;
 pub mod c07;
+pub mod c08;
 pub mod c09;
 pub mod c10;
+pub mod c12;
+pub mod c13;
 pub mod c14;
 pub mod c18;
 #[cfg(feature = "bulk")]
@@ -63,8 +66,11 @@ pub fn dispatch(name: &str, ctx: &Ctx) -> Option<Outcome> {
         "c05" => c05::run(ctx),
         "c06" => c06::run(ctx),
         "c07" => c07::run(ctx),
+        "c08" => c08::run(ctx),
         "c09" => c09::run(ctx),
         "c10" => c10::run(ctx),
+        "c12" => c12::run(ctx),
+        "c13" => c13::run(ctx),
         "c14" => c14::run(ctx),
         "c18" => c18::run(ctx),
         #[cfg(feature = "bulk")]
